@@ -226,6 +226,12 @@ def run(ctx):
                 n.attributes[rng.choice(["k", "n", "t"])] = rng.choice([1, 2.5, None, True, ("a", "b"), ["x"], {"d": 1}])
             if rng.random() < 0.2:
                 n.extras[rng.choice(["xml:k", 7, None])] = rng.choice([0, None, ("t",)])
+            if rng.random() < 0.25:
+                # the maps may be any mapping the caller assigned (an OrderedDict from an older loader, a defaultdict)
+                import collections
+                which_ = rng.choice(["attributes", "extras", "nsmap"])
+                cls_ = rng.choice([collections.OrderedDict, lambda d: collections.defaultdict(str, d)])
+                setattr(n, which_, cls_(getattr(n, which_)))
         shape = lambda r_: [[n.name, typed(n.content), typed(n.tail), typed(n.prefix), typed(n.attributes), typed(n.extras), typed(n.nsmap)] for n in walk(r_)]
         before_shape = shape(root)
         try:
@@ -239,6 +245,12 @@ def run(ctx):
             fails.append({"case": {"tree": t, "exotic_values": True}, "what": f"the copy differs from the original in a field holding a non-string key or value: {bad}"[:400]})
         elif shape(root) != before_shape:
             fails.append({"case": {"tree": t, "exotic_values": True}, "what": "copy() changed the original"})
+        else:
+            # independence whatever the values are: no map, list or node object of the copy is an object of the original
+            objs_o = {id(x) for n in walk(root) for x in (n, n.attributes, n.extras, n.nsmap, n.children)}
+            shared_ = [n.name for n in walk(cp) for x in (n, n.attributes, n.extras, n.nsmap, n.children) if id(x) in objs_o]
+            if shared_:
+                fails.append({"case": {"tree": t, "exotic_values": True}, "what": f"copy and original share a mutable object (a map that is a dict subclass, a list or a node) at {shared_[:3]}"})
     # wide and deep shapes: a node with several hundred children (an attributeList), siblings hanging off the LAST child of wide
     # levels, a chain a few hundred levels deep - copy() is the same function of the tree at every size
     def wide(nk, levels):
